@@ -202,6 +202,92 @@ def _variant_ctor(prog, fdef):
     return None
 
 
+def expand_structural(prog, d):
+    """`Option<Result<T, E>>::transpose()` and `Option<Option<T>>::flatten()` are pure re-arrangements of variants:
+
+        transpose: None => Ok(None), Some(Ok(v)) => Ok(Some(v)), Some(Err(e)) => Err(e)
+        flatten:   None => None,     Some(x) => x
+
+    spelled out as the switches they perform, with a following `?` threaded per arm."""
+    blocks, locs = d["blocks"], d["locals"]
+    changed = False
+    for bi in range(len(blocks)):
+        b = blocks[bi]
+        if b["cleanup"] or b.get("structural_expanded"):
+            continue
+        t = b["term"]
+        if t["k"] != "call" or t["target"] < 0 or len(t["args"]) != 1 or t["dest"]["proj"]:
+            continue
+        c = _callee(t)
+        which = "transpose" if c.endswith("Option::<std::result::Result<T, E>>::transpose") else ("flatten" if c.endswith("Option::<std::option::Option<T>>::flatten") else None)
+        if which is None:
+            continue
+        recv = t["args"][0]
+        if recv.get("k") not in ("copy", "move"):
+            continue
+        line = t.get("span", {}).get("l0", 0)
+        span = t.get("span", {"file": "", "l0": line, "l1": line, "exp": False})
+        dest, target = t["dest"], t["target"]
+
+        def new_local(ty, name=""):
+            locs.append({"ty": ty, "name": name})
+            return len(locs) - 1
+
+        def new_block(stmts=None, term=None):
+            blocks.append({"cleanup": False, "stmts": stmts or [], "term": term or {"k": "goto", "target": target}, "expanded": which})
+            return len(blocks) - 1
+
+        def agg(en, var, ops):
+            return {"k": "aggregate", "kind": {"agg": "adt", "adt": en, "variant": var, "vidx": VIDX[(en, var)], "fields": ["0"] if ops else []}, "ops": ops}
+
+        def mv(n):
+            return {"k": "move", "place": {"local": n, "proj": []}}
+
+        def payload(n, en, var):
+            return {"k": "move", "place": {"local": n, "proj": [{"k": "downcast", "variant": var, "vidx": VIDX[(en, var)]}, {"k": "field", "idx": 0, "name": "0", "adt": en, "ty": "?"}]}}
+        rty = locs[recv["place"]["local"]]["ty"] if not recv["place"]["proj"] and recv["place"]["local"] < len(locs) else "?"
+        rl = new_local(rty)
+        b["stmts"].append({"place": {"local": rl, "proj": []}, "rv": {"k": "use", "op": recv}, "line": line})
+        dl = new_local("isize")
+        b["stmts"].append({"place": {"local": dl, "proj": []}, "rv": {"k": "discr", "place": {"local": rl, "proj": []}}, "line": line})
+        dead = new_block(term={"k": "unreachable"})
+        exits = []
+        if which == "flatten":
+            none_b = new_block([{"place": dest, "rv": agg(OPTION, "None", []), "line": line}])
+            some_b = new_block([{"place": dest, "rv": {"k": "use", "op": payload(rl, OPTION, "Some")}, "line": line}])
+        else:
+            nl = new_local("std::option::Option<?>")
+            none_b = new_block([{"place": {"local": nl, "proj": []}, "rv": agg(OPTION, "None", []), "line": line}, {"place": dest, "rv": agg(RESULT, "Ok", [mv(nl)]), "line": line}])
+            inner = new_local("std::result::Result<?, ?>")
+            d2 = new_local("isize")
+            sl = new_local("std::option::Option<?>")
+            ok_b = new_block([{"place": {"local": sl, "proj": []}, "rv": agg(OPTION, "Some", [payload(inner, RESULT, "Ok")]), "line": line}, {"place": dest, "rv": agg(RESULT, "Ok", [mv(sl)]), "line": line}])
+            err_b = new_block([{"place": dest, "rv": agg(RESULT, "Err", [payload(inner, RESULT, "Err")]), "line": line}])
+            dead2 = new_block(term={"k": "unreachable"})
+            some_b = new_block([{"place": {"local": inner, "proj": []}, "rv": {"k": "use", "op": payload(rl, OPTION, "Some")}, "line": line},
+                                {"place": {"local": d2, "proj": []}, "rv": {"k": "discr", "place": {"local": inner, "proj": []}}, "line": line}],
+                               {"k": "switch", "discr": mv(d2), "targets": [["0", ok_b], ["1", err_b]], "otherwise": dead2, "span": span})
+            exits = [(none_b, "ok"), (ok_b, "ok"), (err_b, "err")]
+        b["term"] = {"k": "switch", "discr": mv(dl), "targets": [["0", none_b], ["1", some_b]], "otherwise": dead, "span": span}
+        b["structural_expanded"] = True
+        chain = _try_chain_impl(blocks, target, dest["local"])
+        if chain is not None and exits:
+            chain_blocks, cont_t, brk_t = chain
+            for last_b, cls in exits:
+                cstart = len(blocks)
+                for k_, n_ in enumerate(chain_blocks):
+                    nb2 = copy.deepcopy(blocks[n_])
+                    if k_ + 1 < len(chain_blocks):
+                        nb2["term"]["target"] = cstart + k_ + 1
+                    else:
+                        nb2["term"] = {"k": "goto", "target": cont_t if cls == "ok" else brk_t}
+                    nb2["threaded"] = cls
+                    blocks.append(nb2)
+                blocks[last_b]["term"] = {"k": "goto", "target": cstart}
+        changed = True
+    return changed
+
+
 def expand_literal_converters(prog, d):
     """`x.invalid_err(msg)` / `read_err` / .. on a value that is only ever assigned Some/None/Ok/Err literals in this
     function (`cond.then_some(v).invalid_err(..)`): the success variant becomes `Ok(payload)` directly, the other one
@@ -1228,6 +1314,16 @@ class Inliner:
                     d2["blocks"] = copy.deepcopy(f.blocks)
                     d2["locals"] = list(f.locals)
                     if lower_lazy_next(self.prog, d2):
+                        f = Fn(d2, f.crate)
+                        f.program = self.prog
+                        self.prog.fns[p] = f
+                        self.expanded += 1
+                        changed = True
+                if self.expand and any(b["term"]["k"] == "call" and not b["cleanup"] and _callee(b["term"]).rsplit("::", 1)[-1] in ("transpose", "flatten") and "Option::<" in _callee(b["term"]) and not b.get("structural_expanded") for b in f.blocks):
+                    d2 = dict(f.d)
+                    d2["blocks"] = copy.deepcopy(f.blocks)
+                    d2["locals"] = list(f.locals)
+                    if expand_structural(self.prog, d2):
                         f = Fn(d2, f.crate)
                         f.program = self.prog
                         self.prog.fns[p] = f
